@@ -34,6 +34,10 @@ EXTENDS Integers, Sequences, FiniteSets, TLC
 \* (TLCEval forces a value before it is handed on: TLC passes operator arguments unevaluated, which would make
 \*  the cost of an iterated step exponential in the number of iterations)
 
+\* TRUE models the repaired code; with FALSE the recursive activation ignores the folded bias weights, which is
+\* the code as found (finding F3 of DESIGN.md section 2) - MC_Solvers_asfound.cfg shows that C12 then fails
+CONSTANT RecursiveAddsBias
+
 D == INSTANCE Depth WITH ClearOnError <- TRUE
 
 ActNames == {"linear", "abs", "clip", "null", "sign", "step"}
@@ -227,7 +231,7 @@ RecNode(fm, fs, cur) ==
     ELSE LET f1 == TLCEval([fs EXCEPT !.inact[cur] = TRUE, !.pre[cur] = 0])
              f2 == TLCEval(RecScan(fm, f1, cur, 1))
          IN  [f2 EXCEPT !.done[cur] = TRUE, !.inact[cur] = FALSE,
-                        !.sig[cur] = Act(fm.act[cur], f2.pre[cur] + FoldedBias(fm, cur))]
+                        !.sig[cur] = Act(fm.act[cur], f2.pre[cur] + (IF RecursiveAddsBias THEN FoldedBias(fm, cur) ELSE 0))]
 RecScan(fm, fs, cur, i) ==
     IF i > Len(fm.rev[cur]) THEN fs
     ELSE LET adj == fm.rev[cur][i]
